@@ -1,5 +1,5 @@
 (* C10 - Retries: at most r+1 attempts, only after timeouts, same result. *)
-From GD Require Import Base.Prelude Model.Strings Model.Buffer Model.Net Model.Valve Model.Quake Proofs.Retry.
+From GD Require Import Base.Prelude Model.Strings Model.Buffer Model.Net Model.Valve Model.Quake Model.Unreal2 Proofs.Retry.
 
 (* the helper against its abstract description, for every attempt function,
    every state and every retry count *)
@@ -49,6 +49,13 @@ Theorem c10_quake_unit_retried : forall port v t,
                   ret (mk_qresp name map players (lenN players mod 256) maxn version vars)) (buf_new data)))).
 Proof. reflexivity. Qed.
 Print Assumptions c10_quake_unit_retried.
+
+(* Unreal 2: each request (send + first reply) is the retried unit *)
+Theorem c10_unreal2_unit_retried : forall port retries kind,
+  u2_get_request_data port retries kind
+  = retry_on_timeout retries (do* _ := send port (u2_request kind) in udp_recv (Some u2_packet_size)).
+Proof. reflexivity. Qed.
+Print Assumptions c10_unreal2_unit_retried.
 
 Example c10_ex : (* two timeouts then a reply, r = 2 *)
   let att : M N := fun n => match n_udp n with
